@@ -26,6 +26,7 @@ type c12Net struct {
 	// ghost counters for C11
 	onLink    [c12Max][c12Max][c12Max]int
 	processed [c12Max][c12Max]int
+	replays   bool // full-table replays are further announcements: the one-copy counters do not apply
 }
 
 type c12Sender struct {
@@ -74,15 +75,24 @@ func c12Connected(nw *c12Net) bool {
 	return true
 }
 
-func c12Build(n int) *c12Net {
+func c12Build(n int) *c12Net { return c12BuildLate(n, -1, -1) }
+
+// li-lj (if >= 0) is a link that comes up later: absent now, but the topology is connected with it
+func c12BuildLate(n, li, lj int) *c12Net {
 	nw := &c12Net{n: n}
 	for i := 0; i < n; i++ {
 		for j := i + 1; j < n; j++ {
 			l := verif_nondet_bool()
+			if i == li && j == lj {
+				l = true
+			}
 			nw.link[i][j], nw.link[j][i] = l, l
 		}
 	}
 	verif_assume(c12Connected(nw))
+	if li >= 0 {
+		nw.link[li][lj], nw.link[lj][li] = false, false
+	}
 	for i := 0; i < n; i++ {
 		nw.rm[i] = routing.NewManager(fID(i))
 		nw.fl[i] = NewFlooder(DefaultFloodConfig(), fID(i), nw.rm[i], &c12Sender{net: nw, me: i})
@@ -146,9 +156,9 @@ func c12Run(nw *c12Net) int {
 		o := c12Idx(adv.OriginAgent)
 		// C11: one announcement per origin in this run, so per link and per agent at most one copy / one processing
 		nw.onLink[t.from][t.to][o]++
-		verif_assert(nw.onLink[t.from][t.to][o] <= 1, "C11/announcement-sent-twice-over-one-link")
+		verif_assert(nw.replays || nw.onLink[t.from][t.to][o] <= 1, "C11/announcement-sent-twice-over-one-link")
 		ok := nw.fl[t.to].HandleRouteAdvertise(fID(t.from), adv.OriginAgent, adv.OriginDisplayName, adv.Sequence, adv.Routes, adv.EncPath, adv.SeenBy)
-		if ok {
+		if ok && !nw.replays {
 			nw.processed[t.to][o]++
 			verif_assert(o != t.to, "C11/origin-processed-its-own-announcement")
 			verif_assert(nw.processed[t.to][o] <= 1, "C11/announcement-processed-twice-by-one-agent")
@@ -174,8 +184,17 @@ func c12PathOK(nw *c12Net, x int, nextHop identity.AgentID, path []identity.Agen
 	return fNoRepeat(path)
 }
 
-func c12Converge(witness bool) {
-	nw := c12Build(c12N)
+func c12Converge(witness bool) { c12ConvergeLate(witness, false) }
+
+func c12ConvergeLate(witness, late bool) {
+	li, lj := -1, -1
+	if late {
+		// which link comes up after the first flood has settled
+		li = verif_choose(c12N - 1)
+		lj = li + 1 + verif_choose(c12N-1-li)
+	}
+	nw := c12BuildLate(c12N, li, lj)
+	nw.replays = late
 	// exit placement: one agent (any) originates a prefix
 	exit := verif_choose(nw.n)
 	prefix := &net.IPNet{IP: net.IP{10, verif_nondet_u8(), 0, 0}, Mask: net.CIDRMask(16, 32)}
@@ -184,7 +203,11 @@ func c12Converge(witness bool) {
 	announces := [c12Max]bool{}
 	announces[exit] = true
 	cnt := 1
-	for i := 0; i < nw.n && cnt < c12Announcers; i++ {
+	maxAnn := c12Announcers
+	if late {
+		maxAnn = c12LateAnnouncers
+	}
+	for i := 0; i < nw.n && cnt < maxAnn; i++ {
 		if !announces[i] {
 			announces[i] = true
 			cnt++
@@ -196,6 +219,22 @@ func c12Converge(witness bool) {
 		}
 	}
 	c12Run(nw)
+	if late {
+		// the link comes up: both ends replay their tables to the new peer (Agent.handlePeerConnected)
+		nw.link[li][lj], nw.link[lj][li] = true, true
+		nw.fl[li].SendFullTable(fID(lj))
+		nw.fl[lj].SendFullTable(fID(li))
+		c12Run(nw)
+		// the next periodic announcement of every announcer (an agent's own presence is
+		// not part of a replay; it reaches a new component with the next announcement)
+		for i := 0; i < nw.n; i++ {
+			if announces[i] {
+				nw.fl[i].AnnounceLocalRoutes()
+			}
+		}
+		c12Run(nw)
+		verif_reach("C12/quiescent-after-late-link")
+	}
 	verif_reach("C12/quiescent")
 	if witness {
 		verif_assert(false, "witness")
@@ -231,4 +270,5 @@ func c12Converge(witness bool) {
 }
 
 func harnessC12Converge()        { c12Converge(false) }
+func harnessC12LateLink()        { c12ConvergeLate(false, true) }
 func harnessC12ConvergeWitness() { c12Converge(true) }
